@@ -38,6 +38,8 @@ def gen_cases(tier, seed):
     cases = []
     for _ in range({"quick": 14, "search": 40, "thorough": 200}[tier]):
         cases.append({"kind": "skipleak", "bseed": rng.randrange(1 << 48)})
+    for _ in range({"quick": 10, "search": 30, "thorough": 150}[tier]):
+        cases.append({"kind": "infodict", "bseed": rng.randrange(1 << 48)})
     for kind, cnt in zip(["reuse", "multi", "info", "cctx"], n):
         for _ in range(cnt):
             cases.append({"kind": kind, "bseed": rng.randrange(1 << 48)})
@@ -489,9 +491,18 @@ def k_skipleak(st, acc, rng, case):
             acc.fail(f[0], f[1], f[2]); return
     acc.keys.add("skipleak_%d" % case["bseed"])
 
+def k_infodict(st, acc, rng, case):
+    """header through LZ4F_getFrameInfo, the rest through LZ4F_decompress_usingDict (context in dstage_init)"""
+    for j in range(5):
+        ev, f = F.run_info_then_dict(st, rng)
+        acc.evals += ev; acc.stats["infodict_runs"] += 1
+        if f:
+            acc.fail(f[0], f[1], f[2]); return
+    acc.keys.add("infodict_%d" % case["bseed"])
+
 def run_case(st, case):
     rng = random.Random(case["bseed"])
     kind = case["kind"]
     acc = Acc(kind)
-    {"reuse": k_reuse, "multi": k_multi, "info": k_info, "cctx": k_cctx, "corpus": k_corpus, "skipleak": k_skipleak}[kind](st, acc, rng, case)
+    {"reuse": k_reuse, "multi": k_multi, "info": k_info, "cctx": k_cctx, "corpus": k_corpus, "skipleak": k_skipleak, "infodict": k_infodict}[kind](st, acc, rng, case)
     return acc.results()
